@@ -131,7 +131,10 @@ def run(rep, tier):
                     "(expected=%s, desired=%s, lock held=%s) and the caller must wait while the state is pre_sleep (%s)"
                     % (T(strip(exp)) if exp else None, T(ev["args"][1]), bool(held), waited))
     sb = S.one(r"scheduler_base::suspend$")[0]
-    st = [(b, i, ev) for b, i, ev in sb.all_events() if ev.get("k") == "call" and callee_short(ev) == "store" and "states_" in P(ev.get("recv"))]
+    from engine.kinds import derives_from as _df2
+    # the PU's state word may be reached through a reference local ('auto& state = states_[n]; state.store(..)')
+    st = [(b, i, ev) for b, i, ev in sb.all_events() if ev.get("k") == "call" and callee_short(ev) == "store" and ev.get("recv") is not None and
+          ("states_" in P(ev["recv"]) or _df2(sb, ev["recv"], lambda t: "states_[" in t))]
     wt = [(b, i, ev) for b, i, ev in sb.all_events() if ev.get("k") == "call" and callee_short(ev) in ("wait", "wait_for", "wait_until") and "cond" in P(ev.get("recv")).lower()]
     cs = [(b, i, ev) for b, i, ev in sb.all_events() if ev.get("k") == "call" and callee_short(ev).startswith("compare_exchange")]
     timed = [x for x in wt if callee_short(x[2]) != "wait"]
